@@ -40,6 +40,7 @@ func isSyncType(t types.Type) bool {
 func runC19(c *Ctx) {
 	ruleGuarded(c)
 	ruleAtomic(c, "ATOMIC", nil)
+	ruleLoopVar(c, "LOOPVAR")
 }
 
 type fieldClass struct {
